@@ -221,6 +221,45 @@ pub open spec fn passmod_kids(pm: PasswordModify) -> Seq<T> { opt_ctx(0, pm.user
         passmod_kids(pm).len() > 0 ==> (r.val matches Some(v) && v@ == ber_t(t_seq(passmod_kids(pm)))), //# C19.password_modify_value_rfc3062
 //@end
 
+
+// ---- transactions (RFC 5805): StartTxn 1.3.6.1.1.21.1 (no value); EndTxn 1.3.6.1.1.21.3,
+//      txnEndReq ::= SEQUENCE { commit BOOLEAN DEFAULT TRUE, identifier OCTET STRING }
+//@const file=src/exop_impl/txn.rs name=TXN_START_OID
+//@const file=src/exop_impl/txn.rs name=TXN_END_OID
+pub struct StartTxn;
+//@lift name=From<StartTxn>::from file=src/exop_impl/txn.rs impl="impl\s+From<StartTxn>\s+for\s+Exop\s*\{" fn=from
+//@ sub "fn from(_: StartTxn) -> Exop" => "fn start_txn_into_exop(_s: StartTxn) -> Exop"
+//@ ret r
+//@ spec
+    ensures r.name matches Some(n) && n@ == "1.3.6.1.1.21.1"@, r.val is None, //# C19.start_txn_oid_rfc5805_no_value
+//@end
+pub struct EndTxn<'a> { pub txn_id: &'a str, pub commit: bool }
+pub open spec fn end_txn_tree(et: EndTxn) -> T {
+    if et.commit { t_seq(seq![t_os(str_bytes(et.txn_id@))]) } else { t_seq(seq![t_bool(false), t_os(str_bytes(et.txn_id@))]) }
+}
+//@lift name=From<EndTxn>::from file=src/exop_impl/txn.rs impl="impl<'a>\s+From<EndTxn<'a>>\s+for\s+Exop\s*\{" fn=from
+//@ sub "fn from(et: EndTxn) -> Exop" => "fn end_txn_into_exop(et: EndTxn) -> Exop"
+//@ sub "let mut et_vec = vec![];" => "let mut et_vec: Vec<Tag> = vec![];"
+//@ sub "Tag::OctetString(lber::structures::OctetString {" => "Tag::OctetString(OctetString {"
+//@ sub "Vec::from(&buf[..])" => "verif_bytes_of(&buf)"
+//@ ret r
+//@ insert entry
+        broadcast use ax_str_bytes;
+//@ insert before "let et_val = Tag::Sequence(Sequence {"
+        proof { if et.commit { tree_lemmas::lemma_trees1(et_vec@, 1); } else { tree_lemmas::lemma_trees2(et_vec@, 2); } }
+//@ spec
+    ensures
+        r.name matches Some(n) && n@ == "1.3.6.1.1.21.3"@, //# C19.end_txn_oid_rfc5805
+        r.val matches Some(v) && v@ == ber_t(end_txn_tree(et)), //# C19.end_txn_value_commit_default_true_not_encoded
+//@end
+
+// ---- Pre/PostRead request (RFC 4527): AttributeSelection ::= SEQUENCE OF selector LDAPString; OIDs 1.3.6.1.1.13.1/.2
+//@const file=src/controls_impl/read_entry.rs name=PRE_READ_OID
+//@const file=src/controls_impl/read_entry.rs name=POST_READ_OID
+pub proof fn read_entry_oids_rfc4527()
+    ensures PRE_READ_OID@ == "1.3.6.1.1.13.1"@, POST_READ_OID@ == "1.3.6.1.1.13.2"@, //# C19.pre_post_read_oids_rfc4527
+{ }
+
 // ======================================================================= response parsers (tree level)
 // lber::parse::parse_tag as a function of the bytes (V-lber-dec: the result is a tree of which the consumed bytes are a
 // definite-length encoding); "for every well-formed response value" = the value parses to a tree of the RFC's shape
@@ -281,6 +320,72 @@ pub proof fn lemma_paged_results_roundtrip(size: i32, cookie: Seq<u8>, st: Struc
         }
     }
 }
+
+
+// ---- SyncState (RFC 4533 2.3): SEQUENCE { state ENUMERATED { present (0), add (1), modify (2), delete (3) },
+//      entryUUID OCTET STRING, cookie OCTET STRING OPTIONAL }
+pub struct SyncState { pub state: EntryState, pub entry_uuid: Vec<u8>, pub cookie: Option<Vec<u8>> }
+pub enum EntryState { Present, Add, Modify, Delete }
+pub open spec fn state_num(s: EntryState) -> int { match s { EntryState::Present => 0, EntryState::Add => 1, EntryState::Modify => 2, EntryState::Delete => 3 } }
+pub open spec fn wf_sync_state(t: StructureTag) -> bool {
+    t.payload matches PL::C(k) && k@.len() >= 2 && k@[0].class == TagClass::Universal && k@[0].id == 10 && (k@[0].payload is P)
+        && be_uint(k@[0].payload->P_0@) <= 3 && (k@[1].payload is P) && (k@.len() >= 3 ==> (k@[2].payload is P))
+}
+//@lift name=SyncState::parse file=src/controls_impl/content_sync.rs impl="impl\s+ControlParser\s+for\s+SyncState\s*\{" fn=parse
+//@ sub "fn parse(val: &[u8]) -> Self" => "fn sync_state_parse(val: &[u8]) -> SyncState"
+//@ sub "IResult::Ok((_, tag)) => tag," => "Ok((_, tag)) => tag,"
+//@ ret r
+//@ closure at="|t| t.match_id(Types::Enumerated as u64)" params="t: StructureTag" ret="(o: Option<StructureTag>)"
+            ensures o == (if t.id == 10 { Some(t) } else { None })
+//@ closure at="|t| t.expect_primitive()" params="t: StructureTag" ret="(o: Option<Vec<u8>>)"
+            ensures o == (match t.payload { PL::P(i) => Some(i), PL::C(_) => None::<Vec<u8>> })
+//@ closure at="|tag| tag.expect_primitive().expect(\"syncstate: synCookie\")" params="tag: StructureTag" ret="(o: Vec<u8>)"
+            requires tag.payload is P
+            ensures tag.payload matches PL::P(i) && o == i
+//@ spec
+    requires parse_spec(val@) matches Some(t) && wf_sync_state(t),
+    ensures
+        state_num(r.state) == be_uint(parse_spec(val@)->0.payload->C_0@[0].payload->P_0@), //# C19.sync_state_numbers_rfc4533
+        r.entry_uuid@ == parse_spec(val@)->0.payload->C_0@[1].payload->P_0@, //# C19.sync_state_uuid_as_sent
+        parse_spec(val@)->0.payload->C_0@.len() == 2 ==> r.cookie is None, //# C19.sync_state_absent_cookie_is_none
+        parse_spec(val@)->0.payload->C_0@.len() >= 3 ==> (r.cookie matches Some(c) && c@ == parse_spec(val@)->0.payload->C_0@[2].payload->P_0@), //# C19.sync_state_cookie_as_sent
+//@end
+
+
+// ---- SyncDone (RFC 4533 2.4): SEQUENCE { cookie OCTET STRING OPTIONAL, refreshDeletes BOOLEAN DEFAULT FALSE }
+pub struct SyncDone { pub cookie: Option<Vec<u8>>, pub refresh_deletes: bool }
+pub open spec fn wf_sync_done_comp(c: StructureTag) -> bool {
+    (c.id == 4 && (c.payload is P)) || (c.id == 1 && (c.payload matches PL::P(b) && b@.len() >= 1))
+}
+pub open spec fn wf_sync_done(t: StructureTag) -> bool {
+    t.payload matches PL::C(k) && forall|j: int| 0 <= j < k@.len() ==> wf_sync_done_comp(#[trigger] k@[j])
+}
+pub open spec fn last_os(k: Seq<StructureTag>, n: int) -> Option<Seq<u8>> decreases n {
+    if n <= 0 { None } else if k[n - 1].id == 4 { Some(k[n - 1].payload->P_0@) } else { last_os(k, n - 1) }
+}
+pub open spec fn last_flag(k: Seq<StructureTag>, n: int) -> bool decreases n {
+    if n <= 0 { false } else if k[n - 1].id == 1 { k[n - 1].payload->P_0@[0] != 0 } else { last_flag(k, n - 1) }
+}
+//@lift name=SyncDone::parse file=src/controls_impl/content_sync.rs impl="impl\s+ControlParser\s+for\s+SyncDone\s*\{" fn=parse
+//@ sub "fn parse(val: &[u8]) -> Self" => "fn sync_done_parse(val: &[u8]) -> SyncDone"
+//@ sub "let mut cookie = None;" => "let mut cookie: Option<Vec<u8>> = None;"
+//@ ret r
+//@ insert before "let mut cookie: Option<Vec<u8>> = None;"
+        let ghost k = parse_spec(val@)->0.payload->C_0@;
+//@ loop 1 iter=it
+            invariant
+                it.seq() == k,
+                forall|j: int| 0 <= j < k.len() ==> wf_sync_done_comp(#[trigger] k[j]),
+                match cookie { Some(c) => last_os(k, it.index@ as int) == Some(c@), None => last_os(k, it.index@ as int) is None },
+                refresh_deletes == last_flag(k, it.index@ as int),
+//@ spec
+    requires parse_spec(val@) matches Some(t) && wf_sync_done(t),
+    ensures
+        ({ let k = parse_spec(val@)->0.payload->C_0@;
+           &&& (match r.cookie { Some(c) => last_os(k, k.len() as int) == Some(c@), None => last_os(k, k.len() as int) is None }) //# C19.sync_done_cookie_as_sent_absent_is_none
+           &&& r.refresh_deletes == last_flag(k, k.len() as int) //# C19.sync_done_refresh_deletes_default_false
+        }),
+//@end
 
 // ---- PasswordModify response (RFC 3062): SEQUENCE { genPasswd [0] OCTET STRING OPTIONAL }
 pub struct PasswordModifyResp { pub gen_pass: String }
